@@ -192,9 +192,10 @@ Section CrashProofs.
   (* ---------------------------------------------------------------------------------------- *)
   (* every interleaving of job step lists obeys the order                                      *)
   (* ---------------------------------------------------------------------------------------- *)
-  (* where job i stands when t is what remains of it *)
+  (* where job i (with its failed attempts) stands when t is what remains of it *)
   Definition at_pos (st : cstate) (i : Z) (t : list step) : Prop :=
-    (t = Crash.job i /\ Crash.c_ph st i = 0%nat) \/
+    (exists vs, t = Crash.job_retry i vs /\ Crash.c_ph st i = 0%nat) \/
+    (exists v vs, t = Crash.SFail i v :: Crash.job_retry i vs /\ Crash.c_ph st i = 1%nat) \/
     (t = skipn 1 (Crash.job i) /\ Crash.c_ph st i = 1%nat) \/
     (t = skipn 2 (Crash.job i) /\ Crash.c_ph st i = 2%nat) \/
     (t = skipn 3 (Crash.job i) /\ Crash.c_ph st i = 3%nat) \/
@@ -206,21 +207,21 @@ Section CrashProofs.
   (* a step of job i (one that touches only individual i and connection i) leaves the position of job j alone *)
   Definition own (i : Z) (x : step) : Prop :=
     x = Crash.SStart i \/ x = Crash.SCosts i \/ x = Crash.SSigned i \/ x = Crash.SDone i \/
-    x = Crash.SExec i i \/ x = Crash.SCommit i \/ x = Crash.SReturn i.
+    x = Crash.SExec i i \/ x = Crash.SCommit i \/ x = Crash.SReturn i \/ exists v, x = Crash.SFail i v.
 
   Lemma at_pos_other : forall st i x j t, own i x -> j <> i -> at_pos st j t -> at_pos (do_step st x) j t.
   Proof.
     intros st i x j t Hown Hne H.
     assert (Hph : Crash.c_ph (do_step st x) j = Crash.c_ph st j).
-    { destruct Hown as [->|[->|[->|[->|[->|[->| ->]]]]]]; simpl; try reflexivity; apply upd_other; exact Hne. }
+    { destruct Hown as [->|[->|[->|[->|[->|[->|[->|[v ->]]]]]]]]; simpl; try reflexivity; apply upd_other; exact Hne. }
     assert (Hpe : Crash.c_pend (do_step st x) j = Crash.c_pend st j).
-    { destruct Hown as [->|[->|[->|[->|[->|[->| ->]]]]]]; simpl; try reflexivity; apply upd_other; exact Hne. }
+    { destruct Hown as [->|[->|[->|[->|[->|[->|[->|[v ->]]]]]]]]; simpl; try reflexivity; apply upd_other; exact Hne. }
     assert (Hsy : forall k, In k (Crash.c_synced st) -> In k (Crash.c_synced (do_step st x))).
-    { intros k Hk. destruct Hown as [->|[->|[->|[->|[->|[->| ->]]]]]]; simpl; try exact Hk. apply in_or_app. right. exact Hk. }
+    { intros k Hk. destruct Hown as [->|[->|[->|[->|[->|[->|[->|[v ->]]]]]]]]; simpl; try exact Hk. apply in_or_app. right. exact Hk. }
     unfold at_pos in *. rewrite Hph, Hpe.
-    destruct H as [H|[H|[H|[H|[H|[H|[H|H]]]]]]]; [tauto | tauto | tauto | tauto | tauto | tauto | |].
-    - destruct H as [H1 [H2 H3]]. right; right; right; right; right; right; left. auto.
-    - destruct H as [H1 [H2 H3]]. right; right; right; right; right; right; right. auto.
+    destruct H as [H|[H|[H|[H|[H|[H|[H|[H|H]]]]]]]]; [tauto | tauto | tauto | tauto | tauto | tauto | tauto | |].
+    - destruct H as [H1 [H2 H3]]. right; right; right; right; right; right; right; left. auto.
+    - destruct H as [H1 [H2 H3]]. right; right; right; right; right; right; right; right. auto.
   Qed.
 
   (* the next step of job i is allowed where job i stands, it is one of i's own steps, and it moves the position on *)
@@ -228,23 +229,37 @@ Section CrashProofs.
     step_ok st x = true /\ own i x /\ at_pos (do_step st x) i t.
   Proof.
     intros st i x t H. unfold at_pos in H. unfold Crash.job in H. simpl in H.
-    destruct H as [[H P]|[[H P]|[[H P]|[[H P]|[[H P]|[[H [P Q]]|[[H [P Q]]|[H _]]]]]]]]; try discriminate; inversion H; subst; clear H.
-    - split; [simpl; rewrite P; reflexivity|]. split; [left; reflexivity|].
-      right; left. split; [reflexivity|]. simpl. apply upd_same.
-    - split; [simpl; rewrite P; reflexivity|]. split; [right; left; reflexivity|].
-      right; right; left. split; [reflexivity|]. simpl. apply upd_same.
-    - split; [simpl; rewrite P; reflexivity|]. split; [right; right; left; reflexivity|].
+    destruct H as [[vs [H P]]|[[v [vs [H P]]]|[[H P]|[[H P]|[[H P]|[[H P]|[[H [P Q]]|[[H [P Q]]|[H _]]]]]]]]]; try discriminate.
+    - (* the objective is entered: for an attempt that will fail, or for the one that succeeds *)
+      destruct vs as [|v vs]; unfold Crash.job_retry, Crash.job in H; simpl in H; inversion H; subst; clear H.
+      + split; [simpl; rewrite P; reflexivity|]. split; [left; reflexivity|].
+        right; right; left. split; [reflexivity|]. simpl. apply upd_same.
+      + split; [simpl; rewrite P; reflexivity|]. split; [left; reflexivity|].
+        right; left. exists v, vs. split; [reflexivity|]. simpl. apply upd_same.
+    - (* the attempt fails: new vector, state EMPTY, back to the top of the loop; no store statement *)
+      inversion H; subst; clear H.
+      split; [simpl; rewrite P; reflexivity|]. split; [right; right; right; right; right; right; right; exists v; reflexivity|].
+      left. exists vs. split; [reflexivity|]. simpl. apply upd_same.
+    - inversion H; subst; clear H.
+      split; [simpl; rewrite P; reflexivity|]. split; [right; left; reflexivity|].
       right; right; right; left. split; [reflexivity|]. simpl. apply upd_same.
-    - split; [simpl; rewrite P; reflexivity|]. split; [right; right; right; left; reflexivity|].
+    - inversion H; subst; clear H.
+      split; [simpl; rewrite P; reflexivity|]. split; [right; right; left; reflexivity|].
       right; right; right; right; left. split; [reflexivity|]. simpl. apply upd_same.
-    - split; [simpl; rewrite P; reflexivity|]. split; [right; right; right; right; left; reflexivity|].
-      right; right; right; right; right; left. split; [reflexivity|]. simpl. split; [exact P|].
-      rewrite upd_same, map_app. apply in_or_app. right. left. reflexivity.
-    - split; [reflexivity|]. split; [right; right; right; right; right; left; reflexivity|].
+    - inversion H; subst; clear H.
+      split; [simpl; rewrite P; reflexivity|]. split; [right; right; right; left; reflexivity|].
+      right; right; right; right; right; left. split; [reflexivity|]. simpl. apply upd_same.
+    - inversion H; subst; clear H.
+      split; [simpl; rewrite P; reflexivity|]. split; [right; right; right; right; left; reflexivity|].
       right; right; right; right; right; right; left. split; [reflexivity|]. simpl. split; [exact P|].
+      rewrite upd_same, map_app. apply in_or_app. right. left. reflexivity.
+    - inversion H; subst; clear H.
+      split; [reflexivity|]. split; [right; right; right; right; right; left; reflexivity|].
+      right; right; right; right; right; right; right; left. split; [reflexivity|]. simpl. split; [exact P|].
       apply in_or_app. left. exact Q.
-    - split; [simpl; apply existsb_zeqb_in; exact Q|]. split; [right; right; right; right; right; right; reflexivity|].
-      right; right; right; right; right; right; right. split; [reflexivity|]. simpl. split; [exact P | exact Q].
+    - inversion H; subst; clear H.
+      split; [simpl; apply existsb_zeqb_in; exact Q|]. split; [right; right; right; right; right; right; left; reflexivity|].
+      right; right; right; right; right; right; right; right. split; [reflexivity|]. simpl. split; [exact P | exact Q].
   Qed.
 
   Definition tasks_ok (st : cstate) (its : list (Z * list step)) : Prop :=
@@ -285,21 +300,39 @@ Section CrashProofs.
       simpl. rewrite !map_app in *. simpl in *. exact HT'.
   Qed.
 
-  Lemma jobs_initial : forall designs db0 ids, NoDup ids ->
-    tasks_ok (Crash.init_state designs db0) (map (fun i => (i, Crash.job i)) ids).
+  (* a design together with the replacement vectors of its failed attempts *)
+  Definition jr (iv : Z * list (list jv)) : list step := Crash.job_retry (fst iv) (snd iv).
+
+  Lemma jobs_retry_initial : forall designs db0 (jobs : list (Z * list (list jv))), NoDup (map fst jobs) ->
+    tasks_ok (Crash.init_state designs db0) (map (fun iv => (fst iv, jr iv)) jobs).
   Proof.
-    intros designs db0 ids Hnd. split.
-    - rewrite map_map. simpl. rewrite map_id. exact Hnd.
-    - apply Forall_forall. intros [i t] Hin. apply in_map_iff in Hin. destruct Hin as [i' [E _]]. inversion E; subst.
-      left. split; reflexivity.
+    intros designs db0 jobs Hnd. split.
+    - rewrite map_map. simpl. exact Hnd.
+    - apply Forall_forall. intros [i t] Hin. apply in_map_iff in Hin. destruct Hin as [[i' vs] [E _]]. inversion E; subst.
+      left. exists vs. split; reflexivity.
   Qed.
+
+  (* every interleaving of jobs WITH failed attempts obeys the order: in particular nothing is executed or
+     committed for a design between a failed attempt and the attempt that succeeds *)
+  Theorem jobs_retry_merge_legal : forall designs db0 (jobs : list (Z * list (list jv))) tr, NoDup (map fst jobs) ->
+    Crash.merge (map jr jobs) tr -> legal (Crash.init_state designs db0) tr = true.
+  Proof.
+    intros designs db0 jobs tr Hnd HM.
+    apply (merge_tasks_legal tr (map (fun iv => (fst iv, jr iv)) jobs)); [apply jobs_retry_initial; exact Hnd|].
+    rewrite map_map. simpl. exact HM.
+  Qed.
+
+  Lemma jobs_as_retry : forall ids, map Crash.job ids = map jr (map (fun i => (i, @nil (list jv))) ids).
+  Proof. intros ids. rewrite map_map. apply map_ext. intros i. reflexivity. Qed.
+
+  Lemma ids_as_retry : forall ids : list Z, map fst (map (fun i => (i, @nil (list jv))) ids) = ids.
+  Proof. intros ids. rewrite map_map. simpl. apply map_id. Qed.
 
   Theorem jobs_merge_legal : forall designs db0 ids tr, NoDup ids ->
     Crash.merge (map Crash.job ids) tr -> legal (Crash.init_state designs db0) tr = true.
   Proof.
-    intros designs db0 ids tr Hnd HM.
-    apply (merge_tasks_legal tr (map (fun i => (i, Crash.job i)) ids)); [apply jobs_initial; exact Hnd|].
-    rewrite map_map. simpl. exact HM.
+    intros designs db0 ids tr Hnd HM. rewrite jobs_as_retry in HM.
+    apply jobs_retry_merge_legal with (jobs := map (fun i => (i, @nil (list jv))) ids); [rewrite ids_as_retry; exact Hnd | exact HM].
   Qed.
 
   (* ... and so does the final sync_all over (some of) the evaluated designs that follows them *)
@@ -331,26 +364,54 @@ Section CrashProofs.
     apply IH. intros k Hk. simpl. apply H. right. exact Hk.
   Qed.
 
-  Theorem run_with_final_sync_all_legal : forall designs db0 ids tr c final, NoDup ids ->
-    Crash.merge (map Crash.job ids) tr -> incl final ids ->
+  Theorem run_retry_with_final_sync_all_legal : forall designs db0 (jobs : list (Z * list (list jv))) tr c final,
+    NoDup (map fst jobs) -> Crash.merge (map jr jobs) tr -> incl final (map fst jobs) ->
     legal (Crash.init_state designs db0) (tr ++ Crash.sync_all_steps c final) = true.
   Proof.
-    intros designs db0 ids tr c final Hnd HM Hincl.
-    destruct (merge_tasks_legal tr (map (fun i => (i, Crash.job i)) ids) (Crash.init_state designs db0)) as [HL [_ HF]];
-      [apply jobs_initial; exact Hnd | rewrite map_map; simpl; exact HM|].
+    intros designs db0 jobs tr c final Hnd HM Hincl.
+    destruct (merge_tasks_legal tr (map (fun iv => (fst iv, jr iv)) jobs) (Crash.init_state designs db0)) as [HL [_ HF]];
+      [apply jobs_retry_initial; exact Hnd | rewrite map_map; simpl; exact HM|].
     rewrite legal_app, HL. simpl. set (st := run_steps tr (Crash.init_state designs db0)) in *.
     assert (Hph : forall i, In i final -> Crash.c_ph st i = 4%nat).
     { intros i Hi. rewrite Forall_forall in HF. specialize (HF (i, [])). simpl in HF.
-      assert (Hin : In (i, @nil step) (map (fun it : Z * list step => (fst it, [])) (map (fun i0 : Z => (i0, Crash.job i0)) ids))).
-      { rewrite map_map. simpl. apply in_map_iff. exists i. split; [reflexivity | apply Hincl; exact Hi]. }
+      assert (Hin : In (i, @nil step) (map (fun it : Z * list step => (fst it, [])) (map (fun iv => (fst iv, jr iv)) jobs))).
+      { rewrite map_map. simpl. apply Hincl in Hi. apply in_map_iff in Hi. destruct Hi as [iv [E Hi]].
+        apply in_map_iff. exists iv. split; [rewrite E; reflexivity | exact Hi]. }
       specialize (HF Hin). unfold at_pos, Crash.job in HF. simpl in HF.
-      destruct HF as [[H _]|[[H _]|[[H _]|[[H _]|[[H _]|[[H _]|[[H _]|[_ [H _]]]]]]]]]; try discriminate. exact H. }
+      destruct HF as [[vs [H _]]|[[v [vs [H _]]]|[[H _]|[[H _]|[[H _]|[[H _]|[[H _]|[[H _]|[_ [H _]]]]]]]]]]; try discriminate; [|exact H].
+      destruct vs; discriminate. }
     unfold Crash.sync_all_steps. rewrite legal_app.
     destruct (legal_execs c final st Hph) as [HL1 [E1 [E2 E3]]]. rewrite HL1. simpl.
     apply legal_returns. intros i Hi. simpl. apply in_or_app. left. apply E3. exact Hi.
   Qed.
 
-  (* the statement planned in DESIGN appendix A.6, for serial and parallel evaluation *)
+  Theorem run_with_final_sync_all_legal : forall designs db0 ids tr c final, NoDup ids ->
+    Crash.merge (map Crash.job ids) tr -> incl final ids ->
+    legal (Crash.init_state designs db0) (tr ++ Crash.sync_all_steps c final) = true.
+  Proof.
+    intros designs db0 ids tr c final Hnd HM Hincl. rewrite jobs_as_retry in HM.
+    apply run_retry_with_final_sync_all_legal with (jobs := map (fun i => (i, @nil (list jv))) ids);
+      [rewrite ids_as_retry; exact Hnd | exact HM | rewrite ids_as_retry; exact Hincl].
+  Qed.
+
+  (* the statement planned in DESIGN appendix A.6, for serial and parallel evaluation, with any number of failed
+     attempts per design: the process may die anywhere, also between a failed attempt and its retry *)
+  Theorem crash_prefix_consistent_retry : forall designs (jobs : list (Z * list (list jv))) tr c final pre,
+    NoDup (map fst jobs) -> Crash.merge (map jr jobs) tr -> incl final (map fst jobs) ->
+    Crash.prefix pre (tr ++ Crash.sync_all_steps c final) ->
+    let db := Crash.recovered (run_steps pre (Crash.init_state designs [])) in
+    NoDup (keys db) /\
+    (forall i, In (Crash.SReturn i) pre -> In i (keys db)) /\
+    (forall k r, lookup k db = Some r -> good_row k r).
+  Proof.
+    intros designs jobs tr c final pre Hnd HM Hincl Hpre.
+    assert (Hdb : forall k r, lookup k (@nil (Z * jv)) = Some r -> good_row k r) by (intros k r H; discriminate).
+    assert (HL : legal (Crash.init_state designs []) (tr ++ Crash.sync_all_steps c final) = true)
+      by (apply run_retry_with_final_sync_all_legal with (jobs := jobs); assumption).
+    destruct (crash_legal_consistent designs [] _ pre (NoDup_nil _) Hdb HL Hpre) as [H1 [H2 [H3 _]]].
+    cbv zeta. auto.
+  Qed.
+
   Theorem crash_prefix_consistent : forall designs ids tr c final pre, NoDup ids ->
     Crash.merge (map Crash.job ids) tr -> incl final ids ->
     Crash.prefix pre (tr ++ Crash.sync_all_steps c final) ->
@@ -359,12 +420,18 @@ Section CrashProofs.
     (forall i, In (Crash.SReturn i) pre -> In i (keys db)) /\
     (forall k r, lookup k db = Some r -> good_row k r).
   Proof.
-    intros designs ids tr c final pre Hnd HM Hincl Hpre.
-    assert (Hdb : forall k r, lookup k (@nil (Z * jv)) = Some r -> good_row k r) by (intros k r H; discriminate).
-    assert (HL : legal (Crash.init_state designs []) (tr ++ Crash.sync_all_steps c final) = true)
-      by (apply run_with_final_sync_all_legal with (ids := ids); assumption).
-    destruct (crash_legal_consistent designs [] _ pre (NoDup_nil _) Hdb HL Hpre) as [H1 [H2 [H3 _]]].
-    cbv zeta. auto.
+    intros designs ids tr c final pre Hnd HM Hincl Hpre. rewrite jobs_as_retry in HM.
+    apply crash_prefix_consistent_retry with (jobs := map (fun i => (i, @nil (list jv))) ids) (tr := tr) (c := c) (final := final);
+      [rewrite ids_as_retry; exact Hnd | exact HM | rewrite ids_as_retry; exact Hincl | exact Hpre].
+  Qed.
+
+  (* why the order matters: a store statement between a failed attempt and its retry (which `legal` forbids) puts an
+     image with the replacement vector and the costs of nothing into the table *)
+  Lemma write_after_failed_attempt_illegal : forall st c i v tr,
+    legal st (Crash.SStart i :: Crash.SFail i v :: Crash.SExec c i :: tr) = false.
+  Proof.
+    intros st c i v tr. simpl. destruct (Nat.eqb (Crash.c_ph st i) 0 || Nat.eqb (Crash.c_ph st i) 4); [|reflexivity].
+    simpl. rewrite !upd_same. simpl. reflexivity.
   Qed.
 End CrashProofs.
 
